@@ -225,6 +225,7 @@ func (ap *accountPool) rebuild(detailed *nom.DetailedMomentum) error {
 	}
 
 	ap.log.Debug("started rebuilding account-pool", "momentum-identifier", detailed.Momentum.Identifier())
+addresses:
 	for _, address := range addresses {
 		log := ap.log.New("address", address)
 		log.Debug("start rebuilding")
@@ -256,7 +257,9 @@ func (ap *accountPool) rebuild(detailed *nom.DetailedMomentum) error {
 				Changes: patch,
 			})
 			if err != nil {
-				return errors.Errorf("account pool rebuild error. Unable to re-apply block %v. Reason %v", block.Header(), err)
+				// the pooled blocks of this address no longer link to the confirmed chain: drop them, go on with the other addresses
+				log.Info("account pool rebuild. Unable to re-apply block", "header", block.Header(), "reason", err)
+				continue addresses
 			}
 		}
 		ap.managers[address] = manager
